@@ -605,15 +605,24 @@ fn case_text(t: &mut Tape, st: &mut Stats) -> Verdict {
 }
 
 /// (c) include cycles, observed through a child process
+/// how file `next` of the cycle is named in the directive: relative, absolute, through `..`, and absolute in
+/// spellings that are not the canonical one (`/./`, `//`, `/sub/../`)
+pub fn cycle_target(dir: &str, next: usize, style: usize) -> String {
+    match style % 6 {
+        0 => format!("./f{}.ds", next),
+        1 => format!("{}/f{}.ds", dir, next),
+        2 => format!("../{}/f{}.ds", std::path::Path::new(dir).file_name().unwrap().to_string_lossy(), next),
+        3 => format!("{}/./f{}.ds", dir, next),
+        4 => format!("{}//f{}.ds", dir, next),
+        _ => format!("{}/sub/../f{}.ds", dir, next),
+    }
+}
+
 pub fn probe_include_cycle(dir: &str, len: usize, self_path_style: usize) -> i32 {
-    let _ = std::fs::create_dir_all(dir);
+    let _ = std::fs::create_dir_all(format!("{}/sub", dir));
     for i in 0..len {
         let next = (i + 1) % len;
-        let target = match self_path_style % 3 {
-            0 => format!("./f{}.ds", next),
-            1 => format!("{}/f{}.ds", dir, next),
-            _ => format!("../{}/f{}.ds", std::path::Path::new(dir).file_name().unwrap().to_string_lossy(), next),
-        };
+        let target = cycle_target(dir, next, self_path_style);
         std::fs::write(format!("{}/f{}.ds", dir, i), format!("echo file {}\n!include_files {}\necho after\n", i, target)).expect("write");
     }
     match duckscript::parser::parse_file(&format!("{}/f0.ds", dir)) {
@@ -624,8 +633,15 @@ pub fn probe_include_cycle(dir: &str, len: usize, self_path_style: usize) -> i32
 }
 
 fn case_cycle(t: &mut Tape, st: &mut Stats) -> Verdict {
+    case_cycle_for("C07", t, st)
+}
+
+pub fn case_cycle_for(prefix: &str, t: &mut Tape, st: &mut Stats) -> Verdict {
     let len = 1 + t.below(4);
-    let style = t.below(3);
+    let style = t.below(6);
+    if style >= 3 {
+        st.class("cycle-through-a-non-canonical-absolute-path");
+    }
     let dir = format!("{}/c07cyc-{:?}", scratch_root(), std::thread::current().id()).replace(['(', ')'], "");
     let _ = std::fs::remove_dir_all(&dir);
     let exe = std::env::current_exe().expect("exe");
@@ -639,10 +655,10 @@ fn case_cycle(t: &mut Tape, st: &mut Stats) -> Verdict {
             if let Some(sig) = o.status.signal() {
                 let stderr = String::from_utf8_lossy(&o.stderr).to_string();
                 let what = if stderr.contains("overflowed its stack") { "stack-overflow" } else { "signal" };
-                return fail(&format!("C07/include-cycle/{}", what), json!({"cycle_length": len, "path_style": style, "signal": sig, "stderr": stderr.lines().take(4).collect::<Vec<_>>()}));
+                return fail(&format!("{}/include-cycle/{}", prefix, what), json!({"cycle_length": len, "path_style": style, "signal": sig, "stderr": stderr.lines().take(4).collect::<Vec<_>>()}));
             }
             if o.status.code() != Some(0) {
-                return fail("C07/include-cycle/abnormal-exit", json!({"cycle_length": len, "status": o.status.code(), "stderr": String::from_utf8_lossy(&o.stderr).lines().take(4).collect::<Vec<_>>()}));
+                return fail(&format!("{}/include-cycle/abnormal-exit", prefix), json!({"cycle_length": len, "status": o.status.code(), "stderr": String::from_utf8_lossy(&o.stderr).lines().take(4).collect::<Vec<_>>()}));
             }
             Verdict::Pass(Some(fp(&(len, style))))
         }
@@ -652,7 +668,7 @@ fn case_cycle(t: &mut Tape, st: &mut Stats) -> Verdict {
 pub fn property() -> Property {
     Property {
         id: "C07",
-        rule: "(commands) 1..25 (thorough ..80) lines after a preamble that creates an array, maps, a set, a byte array, a released handle and variables; each line invokes ANY registered name of the SDK (all aliases and canonical names, minus the removed families) with an argument list drawn from a TYPED pool derived from the usage line of its help text (handles of the right/wrong kind, released, unknown; numbers incl. negative, huge, decimal, non-numeric, non-ASCII digits; multi-byte and syntax-bearing text; look-alikes of fixed-width formats (#rrggbb, hh:mm:ss, dates, versions, uuid ...) with one multi-byte character in place of 2..4 bytes; variable names; relative non-existing paths; documented flags) or from an UNTYPED pool (any value anywhere), with outputs chained into later arguments, exit_on_error toggles, finite for loops (whose body may shorten, clear, release or re-point the iterated array), user aliases of SDK commands and user functions with SDK-only bodies; one case in five is run in two parts, the second part on the context returned by the first; (env-names) set_env (also --handle) / get_env / unset_env / env_to_map with hazard names (empty, with '=' or NUL) and values (with NUL), accepted names prefixed so that no real variable is touched; (text) token soup of real command names, syntax characters and hazard strings; (include-cycle) files forming an include cycle of length 1..4 with relative/absolute/.. paths, parsed in a child process. Oracle: the run returns Ok or Err - a panic (caught, with location) is a violation; every shard runs in a child process, so an abort or stack overflow is attributed to the case that was running; fuel or nesting-limit exhaustion in (commands) is the 'does not finish' verdict because no generated line is a loop construct, alias of an alias, or recursive function; in (text) it is only counted. Non-trivial: every (commands) case; distinct by script text",
+        rule: "(commands) 1..25 (thorough ..80) lines after a preamble that creates an array, maps, a set, a byte array, a released handle and variables; each line invokes ANY registered name of the SDK (all aliases and canonical names, minus the removed families) with an argument list drawn from a TYPED pool derived from the usage line of its help text (handles of the right/wrong kind, released, unknown; numbers incl. negative, huge, decimal, non-numeric, non-ASCII digits; multi-byte and syntax-bearing text; look-alikes of fixed-width formats (#rrggbb, hh:mm:ss, dates, versions, uuid ...) with one multi-byte character in place of 2..4 bytes; variable names; relative non-existing paths; documented flags) or from an UNTYPED pool (any value anywhere), with outputs chained into later arguments, exit_on_error toggles, finite for loops (whose body may shorten, clear, release or re-point the iterated array), user aliases of SDK commands and user functions with SDK-only bodies; one case in five is run in two parts, the second part on the context returned by the first; (env-names) set_env (also --handle) / get_env / unset_env / env_to_map with hazard names (empty, with '=' or NUL) and values (with NUL), accepted names prefixed so that no real variable is touched; (text) token soup of real command names, syntax characters and hazard strings; (include-cycle) files forming an include cycle of length 1..4 with relative / absolute / .. paths and absolute paths in non-canonical spellings (/./, //, /sub/../), parsed in a child process. Oracle: the run returns Ok or Err - a panic (caught, with location) is a violation; every shard runs in a child process, so an abort or stack overflow is attributed to the case that was running; fuel or nesting-limit exhaustion in (commands) is the 'does not finish' verdict because no generated line is a loop construct, alias of an alias, or recursive function; in (text) it is only counted. Non-trivial: every (commands) case; distinct by script text",
         assumptions: &[
             "removed from the context before anything runs (stated exclusions + safety of the root-run checker): exec, spawn, exit/quit/q, watchdog, sleep, read, network commands, hostname, cd, set_env/unset_env, test_directory/test_file, every command that creates, modifies, deletes, lists or reads files (writefile, appendfile, cp, mv, rm, mkdir, touch, chmod, zip, glob_array, ls, cat, readfile, digest ...), which, man, and the internal:: family (its documentation generator writes a file to any path it is given)",
             "resource-proportional requests are bounded: range / random_text / random_range only receive literal numbers of magnitude <= 255, never a value computed by an earlier line, and are not spelled in the text soup",
@@ -698,11 +714,11 @@ pub fn property() -> Property {
             Section {
                 name: "include-cycle",
                 plan: |t| match t {
-                    Tier::Quick => Plan::Random { cases: 64, max_len: 4 },
+                    Tier::Quick => Plan::Random { cases: 96, max_len: 4 },
                     Tier::Thorough => Plan::Random { cases: 1_200, max_len: 4 },
                 },
                 case: case_cycle,
-                min_classes: &[],
+                min_classes: &[("cycle-through-a-non-canonical-absolute-path", 20)],
             },
         ],
         probes: vec![],
